@@ -223,6 +223,13 @@ def case_lazy(rng: Any, ctx: Ctx, index: int) -> None:
     tol = max(TOLS[name], 3e-6 if f32 else 0)
     mk = SOLVERS[name]
     cb = lambda sol: None  # noqa: E731
+    preview = None
+    if rng.integers(3) == 0:
+        # history: a loose "preview" inverse of the same operand object is taken first and kept alive; the inverse taken
+        # afterwards under the real settings must follow the real settings
+        with quiet(), Config(solver=lx.CG(rtol=0.5, atol=0.5, max_steps=1), solver_callback=cb):
+            preview = a.I
+        LOG.count('C06.lazy.history', 'preview-inverse-first')
     if mk is None:
         with Config(solver_callback=cb):
             inv = a.I                     # monitored (lazy branch)
@@ -230,6 +237,7 @@ def case_lazy(rng: Any, ctx: Ctx, index: int) -> None:
         with Config(solver=mk(), solver_callback=cb):
             inv = a.I
     LOG.count('C06.lazy.solver', name)
+    del preview
     LOG.case_key(f'lazy:{name}:{dense.skeleton(a)}:{struct_kind(s)}', True)
 
     def solve() -> None:
